@@ -20,7 +20,7 @@ use crate::sched::{OrderSpec, SchedSpec};
 /// tables the input asks for" cannot excuse anything.
 const LARGE_TABLE: isize = 10_000;
 
-const FAULT_KINDS: [&str; 26] = [
+const FAULT_KINDS: [&str; 27] = [
     "truncate",
     "bit_flip",
     "significant_byte",
@@ -43,6 +43,7 @@ const FAULT_KINDS: [&str; 26] = [
     "duplicate_item",
     "env_dir_named_like_module",
     "env_dangling_symlink",
+    "env_symlink_loop",
     "env_out_dir_is_file",
     "env_output_path_is_dir",
     "env_input_path_spelling",
@@ -956,6 +957,16 @@ pub fn generate(seed: u64, tier: Tier) -> Case {
                 });
                 true
             }
+            "env_symlink_loop" => {
+                // A directory link that leads back up: `**` must not walk it forever.
+                let (path, target) = match rng.below(3) {
+                    0 => ("loop".to_string(), ".".to_string()),
+                    1 => ("d00/up".to_string(), "..".to_string()),
+                    _ => ("a/b".to_string(), "../../a".to_string()),
+                };
+                world.input.push(Node::Symlink { path, target });
+                true
+            }
             "env_out_dir_is_file" => {
                 world.out_is_file = true;
                 true
@@ -1199,7 +1210,7 @@ pub fn evaluate(case: &Case, results: &[Vec<RunResult>], report: &mut CaseReport
                         let text_lines = world
                             .module_files()
                             .iter()
-                            .find(|(q, _)| q == p)
+                            .find(|(q, _)| q == *p)
                             .map(|(_, b)| b.lossy().lines().count())
                             .unwrap_or(0);
                         same_name
